@@ -62,6 +62,11 @@ void BrentOneDimension::doInit(const ParameterList& params)
   else
   {
     bracket = OneDimensionOptimizationTools::inwardBracketMinimum(_xinf, _xsup, function(), getParameters());
+    // The inward scan returns the two ends in a and b and the best point in c,
+    // whereas the code below expects the ends in a and c and the best point in b:
+    BracketPoint best = bracket.c;
+    bracket.c = bracket.b;
+    bracket.b = best;
   }
 
   if (getVerbose() > 0)
